@@ -38,6 +38,37 @@ PROPS = {
     ),
 }
 
+PROPS['C20'] = dict(
+    title='entry points agree',
+    units=['wrap'],
+    shims=['A-path/fs', 'A-str', 'A-hashmap'],
+    design='DESIGN.md 3/C20',
+    technique='contract-based deductive verification (Verus) of the verbatim wrapper bodies; callees carry an assumed contract attached to their real signature and keyed by parameter name',
+    level_text='Deductive proof over the real bodies of preprocess, preprocess_inner, parse_sv, parse_sv_str, parse_lib, parse_lib_str, parse_sv_pp and parse_lib_pp that each equals its callee applied to the NAMED arguments (file route = str route on the file contents = preprocess followed by parse_*_pp, strip_comments off, depths 0/0) for every flag combination, define table and include-path list. A wrapper that swaps, drops or hard-codes a flag, short-cuts a case or alters the result fails its postcondition.',
+    level_note='Assumed: the ghost file system is constant during a call; preprocess_str and the four parser entry points are uninterpreted functions of their named parameters; shims for File/BufReader/PathBuf/HashMap; Verus+z3.',
+    not_covered=['determinism of preprocess_str / the parsers themselves (C07)', 'wrappers are checked against uninterpreted callee functions, i.e. agreement, not correctness of the result'],
+)
+PROPS['C09'] = dict(
+    title='bounded recursion',
+    units=['depth', 'wrap'],
+    shims=[],
+    design='DESIGN.md 3/C09',
+    technique='contract-based deductive verification (Verus) of the mechanically sliced recursion skeleton (guards + recursive calls with real argument expressions) of the real functions, with a termination measure',
+    level_text='Deductive proof, for all depths and all interleavings of include and macro recursion, on the recursion skeleton cut from the real preprocess / preprocess_inner / preprocess_str / resolve_text_macro_usage: a lexicographic measure over both counters decreases at every recursive call (all cycles terminate), each guard returns ExceedRecursiveLimit exactly when its counter exceeds 64, and a counter never exceeds the true nesting depth, so chains of legal depth never trip a guard.',
+    level_note='The skeleton drops everything except guards and the recursive calls (rule R-slice); sound because the slicer refuses when a depth parameter is assigned, shadowed or passed through a non-trivial expression. Callers of the public preprocess_str are assumed to pass resolve_depth <= 64 and include_depth <= 65 (every in-repo caller passes 0). Stack exhaustion is outside the claim.',
+    not_covered=['that a legal chain yields the fully expanded text (C05/C10)', 'the once-per-level Include wrapping of the error (V-arms include)'],
+)
+PROPS['C18'] = dict(
+    title='strip_comments',
+    units=['depth', 'wrap'],
+    shims=['A-glue'],
+    design='DESIGN.md 3/C18',
+    technique='contract-based deductive verification (Verus): flag forwarding on the recursion skeleton and at the entry wrappers; arm-guard obligations on the lifted match arms',
+    level_text='Deductive proof that strip_comments is forwarded unchanged at every recursive call site and entry wrapper (all four recursion sites, both flags kept apart by parameter name), and that only comment arms depend on the flag.',
+    level_note='Partial: equality of token sequences, define tables and errors between the two modes is a relation between two runs and is not decided (a comment that is the only separator, K6, is re-demonstrated by replay only).',
+    not_covered=['token-level equality between the two modes (K6)', 'the dispatch loop (A-glue)'],
+)
+
 NOT_APPLICABLE = {
     'C02': 'the oracle is the set of Annex A sentences and their production labels; a contract able to state it would restate the 1.3k-production grammar, and PEG ordered choice over it is not a per-function property (DESIGN.md 4)',
     'C12': 'a relation between two parses of two different inputs over every production and trivia assignment (hyperproperty); per-function contracts do not compose to it without a proof about the whole PEG (DESIGN.md 4)',
